@@ -4,10 +4,12 @@ import (
 	"bytes"
 	"crypto/tls"
 	"fmt"
+	mail "github.com/wneessen/go-mail"
 	"os"
 	"os/exec"
 	"strings"
 	"sync"
+	"sync/atomic"
 	"testing"
 
 	"pgregory.net/rapid"
@@ -249,7 +251,8 @@ func opensslVerify(msg []byte) (ok bool, out string, available bool) {
 
 func c08Gen(t *rapid.T) c08Case {
 	o := gen.GenOpts{
-		Encodings: []string{"quoted-printable", "base64", "8bit"}, MaxParts: 3, MaxEmbeds: 2, MaxAttach: 2, AllowNoBody: true,
+		Boundaries: true,
+		Encodings:  []string{"quoted-printable", "base64", "8bit"}, MaxParts: 3, MaxEmbeds: 2, MaxAttach: 2, AllowNoBody: true,
 		PartEncs: []string{"", "", "quoted-printable", "base64", "8bit"}, FileEncs: []string{"", "", "base64", "8bit"},
 		Descriptions: true, CRLFOnly: true, Chunking: true,
 	}
@@ -282,7 +285,8 @@ func c08Gen(t *rapid.T) c08Case {
 	}
 	c.MultiLinePre = rapid.IntRange(0, 3).Draw(t, "multilinepre") == 0
 	c.Issuer = rapid.SampledFrom([]string{"p256", "p256", "p384", "p521"}).Draw(t, "issuer")
-	if len(c.Spec.Parts) >= 1 && c.Spec.Charset == "" && rapid.IntRange(0, 3).Draw(t, "addalt") == 0 {
+	// (a caller-chosen boundary is documented for one multipart level only: no part is added then)
+	if len(c.Spec.Parts) >= 1 && c.Spec.Charset == "" && c.Spec.Boundary == "" && rapid.IntRange(0, 3).Draw(t, "addalt") == 0 {
 		c.AddAltBetween = true
 	}
 	if rapid.IntRange(0, 3).Draw(t, "failfirst") == 0 {
@@ -295,7 +299,118 @@ func TestC08(t *testing.T) {
 	rec := core.Rec("C08")
 	rec.Rule = "rapid draws message programs (0..3 parts, 0..2 embeds, 0..2 attachments in every combination incl. body-less and file-only messages; QP/base64/8bit per message, part and file; part and file descriptions incl. long ones; long file names; generic headers incl. long and non-ASCII values, a generic header without values, preformatted and multi-line preformatted headers, To/Cc *IgnoreInvalid lists that end up empty; contents in canonical CRLF form; chunked producers), signs them with an ECDSA P-256 or RSA-2048 key whose certificate was issued by a P-256, P-384 or P-521 CA (SHA-256/384/512 on the certificate), with or without an intermediate certificate, through SignWithKeypair or SignWithTLSCertificate, and renders each message twice (one case in four after a first render into a sink that fails at a drawn offset; one in four with an alternative part added between the two renders). " +
 		"Oracle (own MIME reader + own CMS SignedData verifier on encoding/asn1 and crypto/*): top level multipart/signed with protocol=application/pkcs7-signature and micalg=sha-256 and exactly two parts; SHA-256 of the first part exactly as emitted between the delimiters == the message-digest attribute; signed attributes in DER SET order with content-type id-data; signature valid under the carried signer certificate, which is the one given; intermediate carried iff given; the signed entity's leaves match the model; the second render verifies too and carries the same signed entity. " +
-		"Non-trivial: every case (each exercises the double render). Distinct by (shape key, key type, intermediate, API, header features)."
+		"TestC08Conc: 2..8 goroutines each build, sign (one shared *tls.Certificate through SignWithTLSCertificate, or the shared key pair) and render 2..12 fresh messages at the same time (12 such cases per process in quick, 150 in thorough); every output must be a verifying multipart/signed message of its own content. Non-trivial: every case (each exercises the double render). Distinct by (shape key, key type, intermediate, API, header features)."
 	rec.Assumptions = []string{"contents are generated in canonical CRLF form (the property's domain)", "certificate chain validation up to a trust anchor is not part of the property"}
 	core.Prop[c08Case]{ID: "C08", Test: "TestC08", Gen: c08Gen, Run: c08Run}.Check(t)
+}
+
+// --- concurrent signing with one key pair -------------------------------------------------------
+
+// c08ConcCase: several goroutines each build, sign (SignWithTLSCertificate with ONE shared
+// *tls.Certificate, or SignWithKeypair with the shared key) and render fresh messages at the same
+// time. Every output has to be a verifying multipart/signed message of its own content.
+type c08ConcCase struct {
+	Goroutines int    `json:"goroutines"`
+	PerG       int    `json:"per_goroutine"`
+	Key        string `json:"key"`
+	Via        string `json:"via"`
+	Attach     bool   `json:"attach"`
+}
+
+var c08ConcRuns atomic.Int64
+
+func c08ConcRun(c c08ConcCase) []*core.Violation {
+	rec := core.Rec("C08")
+	limit := int64(12)
+	if core.Thorough() {
+		limit = 150
+	}
+	if core.ReplayArg == "" && c08ConcRuns.Add(1) > limit {
+		return nil // the budget of this (expensive) variant per process is used up
+	}
+	chain := signingChain(c.Key, false)
+	tc := &tls.Certificate{Certificate: [][]byte{chain.Leaf.Raw}, PrivateKey: chain.Key, Leaf: chain.Leaf}
+	type result struct {
+		tok string
+		out []byte
+		err error
+	}
+	results := make(chan result, c.Goroutines*c.PerG)
+	start := make(chan struct{})
+	var wg sync.WaitGroup
+	for g := 0; g < c.Goroutines; g++ {
+		g := g
+		wg.Add(1)
+		go func() {
+			defer wg.Done()
+			<-start
+			for k := 0; k < c.PerG; k++ {
+				tok := fmt.Sprintf("concg%dm%dz", g, k)
+				m := mail.NewMsg()
+				_ = m.From("sender@verif.example")
+				_ = m.To("rcpt@verif.example")
+				m.Subject("subject " + tok)
+				m.SetBodyString(mail.TypeTextPlain, "body of "+tok+"\r\n"+strings.Repeat("line of "+tok+"\r\n", 40))
+				if c.Attach {
+					_ = m.AttachReader(tok+".txt", strings.NewReader(strings.Repeat("attachment of "+tok+"\r\n", 60)))
+				}
+				var err error
+				if c.Via == "tlscert" {
+					err = m.SignWithTLSCertificate(tc)
+				} else {
+					err = m.SignWithKeypair(chain.Key, chain.Leaf, nil)
+				}
+				var buf bytes.Buffer
+				if err == nil {
+					_, err = m.WriteTo(&buf)
+				}
+				results <- result{tok, buf.Bytes(), err}
+			}
+		}()
+	}
+	close(start)
+	wg.Wait()
+	close(results)
+	var vs []*core.Violation
+	for r := range results {
+		if r.err != nil {
+			vs = append(vs, core.V("render-error", "concurrent signing: %s: %v", r.tok, r.err))
+			continue
+		}
+		root := mimeread.Parse(r.out)
+		if root.MediaType != "multipart/signed" || len(root.Children) != 2 {
+			vs = append(vs, core.V("not-signed", "concurrent signing (%d goroutines, shared key pair via %s): the output of %s is %s with %d parts, not multipart/signed with 2", c.Goroutines, c.Via, r.tok, root.MediaType, len(root.Children)))
+			continue
+		}
+		der, probs := root.Children[1].Decoded()
+		if len(probs) > 0 {
+			vs = append(vs, core.V("signature-part", "concurrent signing: %s: %v", r.tok, probs))
+			continue
+		}
+		if _, err := cmsverify.Verify(der, root.Children[0].Raw); err != nil {
+			vs = append(vs, core.V("signature-invalid", "concurrent signing (%d goroutines, via %s): %s: %v", c.Goroutines, c.Via, r.tok, err))
+			continue
+		}
+		if n := bytes.Count(r.out, []byte("concg")); n != bytes.Count(r.out, []byte(r.tok)) || !bytes.Contains(r.out, []byte("body of "+r.tok)) {
+			vs = append(vs, core.V("content-mixed", "concurrent signing: the output of %s carries tokens of another message", r.tok))
+		}
+		rec.AddExtra("concurrent_signatures_verified", 1)
+	}
+	rec.NonTrivial(fmt.Sprintf("conc/%d/%d/%s/%s/%v", c.Goroutines, c.PerG, c.Key, c.Via, c.Attach))
+	rec.Class("concurrent-signing")
+	return vs
+}
+
+func c08ConcGen(t *rapid.T) c08ConcCase {
+	return c08ConcCase{
+		Goroutines: rapid.IntRange(2, 8).Draw(t, "goroutines"),
+		PerG:       rapid.IntRange(2, 12).Draw(t, "per"),
+		Key:        rapid.SampledFrom([]string{"ecdsa", "ecdsa", "rsa"}).Draw(t, "key"),
+		Via:        rapid.SampledFrom([]string{"tlscert", "tlscert", "keypair"}).Draw(t, "via"),
+		Attach:     rapid.Bool().Draw(t, "attach"),
+	}
+}
+
+func TestC08Conc(t *testing.T) {
+	core.Prop[c08ConcCase]{ID: "C08", Test: "TestC08Conc", Gen: c08ConcGen, Run: c08ConcRun}.Check(t)
 }
